@@ -14,6 +14,29 @@ TABLE = {
         "assumptions": ["builders abstracted at call sites as uninterpreted functions of all their arguments (their own bodies are under contract in C06)",
                         "source.replace_leaves(m) abstracted as the function replace_leaves(source, m) the per-class obligations define"],
     },
+    "C01": {
+        "mods": ["contracts.glue"],
+        "keys": ["SQLModel.select_rows_to_near_sql", "SQLModel.rename_to_near_sql", "SQLModel.map_columns_to_near_sql", "SQLModel.project_to_near_sql", "SQLModel.order_to_near_sql",
+                 "SQLModel.extend_to_near_sql:window-clause", "SQLModel.extend_to_near_sql:term-assembly", "SQLiteModel._emit_right_join_as_left_join"],
+        "groups_extra": [(["contracts.c04_format"], ["SQLModel._indent_and_sep_terms"]), (["contracts.c14_quote"], ["SQLModel.quote_identifier"])],
+        "explanation": ("hybrid: PROVED (pyvc) -- what the SQL generator writes for seven operator translations, for all nodes and all requested column sets: select_rows (requested columns passed through, "
+                        "WHERE sql(expr)), rename / map_columns (new = quoted old, untouched requested columns passed through, deleted ones dropped), project (GROUP BY names ALL group keys, none without keys), "
+                        "order_rows (ORDER BY / DESC / LIMIT, limit=0 included), extend (OVER clause lists all partition and order columns with DESC on the reversed ones; every term is sql(expr)+clause and "
+                        "declares the window columns as dependencies), the SQLite right-join emulation (sources and keys swapped), the term layout routine and identifier quoting. These obligations say "
+                        "WHICH pieces are written WHERE; that SQLite then computes what Pandas computes (null semantics, aggregation, joins, expression translation `expr_to_sql`, natural_join / concat_rows / "
+                        "convert_records / table SQL, near_sql rendering) is NOT proved: BOUNDED -- read_query(to_sql(ops)) against ops.eval(data) over every operator pair (triples in thorough) and small tables"),
+        "assumptions": ["strings uninterpreted (cancellative +, join, repeat); expr_to_sql a function of the expression; NearSQLUnaryStep keeps the terms / suffix it is given; columns_used_from_sources as proved in C10"],
+    },
+    "C03": {
+        "mods": ["contracts.glue"],
+        "keys": ["PolarsModel._table_step", "PandasModel._table_step", "PolarsModel._order_rows_step", "PandasModel._order_rows_step", "PandasModel._select_columns_step", "PandasModel._rename_columns_step", "PandasModel._select_rows_step"],
+        "explanation": ("hybrid: PROVED (pyvc) -- for the steps whose executor code is within reach, BOTH executors hand their frame library the same thing: the table step narrows and orders the input to the "
+                        "declared columns (eager or lazy Polars input, extra or permuted columns), order_rows sorts by exactly the order columns, ascending except on the reversed ones, and cuts to the limit "
+                        "(Pandas sort_values / iloc, Polars sort / head, stated through the same spec function), select_columns / rename_columns / select_rows use the node's own arguments. That the two "
+                        "libraries then compute the same values (null handling, joins, windows, aggregation -- extend / project / natural_join / concat_rows / convert_records steps) is NOT proved: "
+                        "BOUNDED -- the Polars executor (eager / lazy, both lazy-eval modes, wide inputs) against the Pandas result whenever it returns, over every operator pair and small tables"),
+        "assumptions": ["pandas / polars: sort_values, sort, head, iloc, loc, select, rename, reset_index are functions of their arguments (library contracts assumed)"],
+    },
     "C08": {
         "mods": ["contracts.glue"], "keys": ["PandasModel._select_columns_step", "PandasModel._rename_columns_step", "PolarsModel._table_step", "PandasModel._table_step", "SQLModel.select_rows_to_near_sql", "SQLModel.rename_to_near_sql", "SQLModel.map_columns_to_near_sql"],
         "explanation": ("hybrid: PROVED (pyvc) -- SQLModel.select_rows_to_near_sql selects exactly the requested columns (all of the step's columns by default), each passed through unchanged, and filters by the node's own expression (suffix WHERE indent+sql(expr)); rename_to_near_sql / map_columns_to_near_sql select every renamed column as new = quoted old, pass exactly the requested untouched source columns through and drop the deleted ones; the column-shaping glue hands the frame library exactly the declared columns: Pandas _table_step and Polars _table_step ALWAYS narrow and order the "
